@@ -45,6 +45,7 @@ COMPONENTS = {
 ASSUMPTIONS = [
     "randomness is drawn from NumPy's legacy global generator (np.random.*); a refactor to another generator is "
     "still checked by the invariants, and boundary_draw_used then stays 0 and nothing is asserted about boundary draws",
+    "uniformity is asserted for subsample only (the statement's clause); downsample's element frequencies are measured and reported, not judged",
     "uniformity: Hoeffding two-sided bound at 1e-12 per statistic, Bonferroni over < 1e4 statistics; exact-tail runs: Fisher's "
     "method on scipy.stats.hypergeom log-tails (conservative for discrete p-values), level 1e-13 per statistic",
     "'exact' fit: discrete power-law log-likelihood is concave in alpha, so 'maximiser within bounds' is checked as "
@@ -360,6 +361,7 @@ def execute(trace, ctx=None):
             violation, info = run_uniformity(op, step, st, dist)
             stats["uniformity_runs"] += 1
             stats["uniformity_statistics"] += info["statistics"]
+            stats["downsample_frequency_outliers"] += info.get("outliers", 0)
             stats["random_draws"] += op["R"]
             log.append(["uniformity", info["digest"]])
             shape.append(["uniformity", op["fn"], op.get("counts"), op.get("n"), op.get("n_items"), op.get("maxseqs"), op.get("container")])
@@ -701,15 +703,27 @@ def run_uniformity(op, step, st, dist):
                 for x in list(res):
                     kept[str(x)] += 1
         names = ["r%d" % i for i in range(N)] if cont == "dataframe" else items
+        # The statement promises uniformity for subsample only ("every individual item being equally likely to be kept");
+        # for downsample it promises size and sub-multiset, which every draw above is checked for.  Element frequencies of
+        # downsample are therefore reported (coverage.counters.downsample_frequency_outliers), never raised as a violation.
         t = hoeffding_t(R, 1.0)
+        outliers = 0
         for nm in names:
             nstat += 1
             f, p = kept.get(nm, 0) / R, m / N
-            if abs(f - p) > t and viol is None:
-                viol = {"oracle": "uniformity", "op": "downsample", "step": step,
-                        "detail": "downsample(%s of %d distinct items, maxseqs=%d) over R=%d draws: element %s kept with frequency %.5f, "
-                                  "expected %.5f (allowed deviation %.5f)" % (cont, N, m, R, nm, f, p, t)}
+            if abs(f - p) > t:
+                outliers += 1
+        total = sum(kept.values())
+        if total != R * m and viol is None:
+            viol = {"oracle": "wrong_length", "op": "downsample", "step": step,
+                    "detail": "downsample(%s of %d distinct items, maxseqs=%d) over R=%d draws returned %d elements in total, expected %d" % (
+                        cont, N, m, R, total, R * m)}
+        stray = set(kept) - set(names)
+        if stray and viol is None:
+            viol = {"oracle": "not_sub_multiset", "op": "downsample", "step": step,
+                    "detail": "downsample(%s of %d items, maxseqs=%d) returned elements that are not in the input: %r" % (cont, N, m, sorted(stray)[:4])}
         dg = digest(sorted(kept.items()))
+        return viol, {"statistics": nstat, "digest": dg, "outliers": outliers}
     return viol, {"statistics": nstat, "digest": dg}
 
 
